@@ -124,6 +124,20 @@ Theorem C09_boundary_descriptors : forall (h : handler) (hd : dhandler) ms t cs 
 Proof. exact serve_predict_d. Qed.
 Print Assumptions C09_boundary_descriptors.
 
+(* The same including replies too large to spell out: the written bytes are a frame sequence rs followed
+   by the tail's answer, and the (type, length) descriptors of the delivered messages and of rs are
+   computed from the request descriptors and the LENGTH of each reply alone. *)
+Theorem C09_boundary_reply_descriptors : forall (h : handler) (hl : lhandler) ms t cs fuel,
+  (forall m, option_map lenN (h m) = hl (desc_of m)) ->
+  Forall valid_msg ms -> tail_ok t -> chunking cs (encode ms ++ tail_bytes t) -> (length ms < fuel)%nat ->
+  exists rs,
+    written (serve fuel h cs) = encode rs ++ tail_written_d (desc_tail t) /\
+    (map desc_of (delivered (serve fuel h cs)), map desc_of rs, tail_written_d (desc_tail t),
+     end_class (ended (serve fuel h cs)), allocs_bounded (serve fuel h cs))
+    = predict_dl hl (map desc_of ms) (desc_tail t).
+Proof. exact serve_predict_dl. Qed.
+Print Assumptions C09_boundary_reply_descriptors.
+
 (* Fuel: one iteration per 8 bytes of stream (plus one) always suffices. *)
 Theorem C09_fuel_sufficient : forall (fuel : nat) (h : handler) (s : stream),
   lenN (concat s) / 8 < N.of_nat fuel -> ended (serve fuel h s) <> EndOutOfFuel.
